@@ -130,11 +130,12 @@ fn number_enumerals(
         .into_iter()
         .map(|(mut e, explicit)| {
             if !explicit {
-                while explicit_in_root.contains(&next) {
+                // (numbers at the very end of the i128 range leave nothing to count on to)
+                while explicit_in_root.contains(&next) && next < i128::MAX {
                     next += 1;
                 }
                 e.index = next;
-                next += 1;
+                next = next.saturating_add(1);
             }
             e
         })
@@ -145,8 +146,8 @@ fn number_enumerals(
             .into_iter()
             .map(|(mut e, explicit)| {
                 if !explicit {
-                    let mut candidate = previous.map_or(0, |p| (p + 1).max(0));
-                    while root.iter().any(|r| r.index == candidate) {
+                    let mut candidate = previous.map_or(0, |p| p.saturating_add(1).max(0));
+                    while root.iter().any(|r| r.index == candidate) && candidate < i128::MAX {
                         candidate += 1;
                     }
                     e.index = candidate;
